@@ -237,7 +237,7 @@ theorem quicksort_sorted_perm [DecidableEq α] (lt : α → α → Bool) (hst : 
   obtain ⟨l', hl'⟩ := Option.isSome_iff_exists.mp (qsortList_total lt hst.irr l)
   refine ⟨l', hl', qsortList_perm lt hl', ?_⟩
   intro i j x y hij hx hy
-  exact qsortList_sorted lt hst hl' i j x y (Nat.zero_le _) hij (lt_len_of_some hy) hx hy
+  exact qsortList_sorted lt hst.weak hl' i j x y (Nat.zero_le _) hij (lt_len_of_some hy) hx hy
 
 /-- the hypothesis is satisfiable: `<` on the integers (the order of `Array<int>` and of the counted type) -/
 example : StrictTotal (fun a b : Int => decide (a < b)) :=
@@ -270,6 +270,58 @@ theorem sort_spec [DecidableEq α] (E : Elem α) (hst : StrictTotal E.lt) (sp : 
   intro i j x y hij hx hy
   have := hsorted i j x y hij hx hy
   cases desc <;> simpa using this
+
+/-- **`sort` / `sortBy` with ties**: for every strict weak order (the strict part of a total preorder — distinct elements
+may compare equal, as two strings of the same length do under `sortBy(length)`) and every sequence the transcribed
+quicksort terminates in bounds and returns a permutation of the input with no inversion (`y` after `x` is never
+`< x`).  Which of the tied arrangements comes out is fixed by the run function itself (`qsortList` is what the driver
+executes; K compares the exact sequence with the library's). -/
+theorem quicksort_sorted_perm_ties [DecidableEq α] (lt : α → α → Bool) (hsw : StrictWeak lt) (l : List α) :
+    ∃ l', qsortList lt l = some l' ∧ l'.Perm l ∧
+      ∀ (i j : Nat) (x y : α), i < j → l'[i]? = some x → l'[j]? = some y → lt y x = false := by
+  obtain ⟨l', hl'⟩ := Option.isSome_iff_exists.mp (qsortList_total lt hsw.irr l)
+  refine ⟨l', hl', qsortList_perm lt hl', ?_⟩
+  intro i j x y hij hx hy
+  exact qsortList_sorted lt hsw hl' i j x y (Nat.zero_le _) hij (lt_len_of_some hy) hx hy
+
+/-- the hypothesis is satisfiable by an order with ties: strings compared by their length (`strElem.key`), where
+`"a"` and `"b"` are different and neither is below the other -/
+example : StrictWeak (fun a b => decide (strElem.key a < strElem.key b)) ∧
+    ([97] : List UInt8) ≠ [98] ∧ decide (strElem.key [97] < strElem.key [98]) = false ∧
+    decide (strElem.key [98] < strElem.key [97]) = false :=
+  ⟨strictWeak_key _, by decide, by decide, by decide⟩
+
+/-- **the value of `a.sortBy(key, ascending)`** in the reference semantics, for every element type and EVERY key
+function (keys may tie): a permutation of the elements of `a` whose keys are non-decreasing (`ascending`) resp.
+non-increasing -/
+theorem sortby_spec [DecidableEq α] (E : Elem α) (sp : Sp α) (hwf : SpWf sp) (h : Nat)
+    (ho : sp.occ h = true) (asc : Bool) :
+    ((specStep E sp (.sortby h asc)).1.get h).Perm (sp.get h) ∧
+    ∀ (i j : Nat) (x y : α), i < j → ((specStep E sp (.sortby h asc)).1.get h)[i]? = some x →
+      ((specStep E sp (.sortby h asc)).1.get h)[j]? = some y →
+      (if asc then E.key x ≤ E.key y else E.key y ≤ E.key x) := by
+  have hsw : StrictWeak (if asc then fun a b => decide (E.key a < E.key b)
+      else fun a b => decide (E.key b < E.key a)) := by
+    cases asc
+    · exact (strictWeak_key E.key).flip
+    · exact strictWeak_key E.key
+  obtain ⟨l', hl', hperm, hsorted⟩ := quicksort_sorted_perm_ties _ hsw (sp.get h)
+  have hget : (specStep E sp (.sortby h asc)).1.get h = l' := by
+    simp only [specStep, ho, if_true]
+    rw [get_sMut_self hwf ho, hl']; rfl
+  rw [hget]
+  refine ⟨hperm, ?_⟩
+  intro i j x y hij hx hy
+  have := hsorted i j x y hij hx hy
+  cases asc <;> simp at this ⊢ <;> omega
+
+/-- non-vacuity of `sortby_spec`: a well-formed spec state with an occupied handle holding two tied strings -/
+example : ∃ sp : Sp (List UInt8), SpWf sp ∧ sp.occ 0 = true ∧ sp.get 0 = [[98], [97]] :=
+  ⟨⟨[[[98], [97]]], [some 0]⟩, by
+    intro slot c h
+    cases slot with
+    | zero => simp at h; subst h; decide
+    | succ k => simp at h, rfl, rfl⟩
 
 /-! ## consequences inside the reference semantics (inherited by the model through `array_refines_seq_partial`:
 every reachable model state is `Good st sp`, and `Good.spwf` gives the hypotheses used here) -/
